@@ -26,6 +26,11 @@ EXPLANATION = (
     "loader and, step by step, on a 20-line reference (non-caching loader + explicit LRU list); the solver "
     "certifies that no history in the bound distinguishes them."
 )
+TECHNIQUE = (
+    "symbolic execution with z3 (CrossHair) over choice variables (configurations, operation codes, schedule bits): the solver "
+    "enumerates the bounded structure space and certifies that no choice is left; the real liquid2 code then runs natively on "
+    "each chosen structure (nothing symbolic reaches it); counterexamples are replayed natively"
+)
 OUTSIDE = [
     "histories longer than 3 (thorough 4) steps; more than 2 names x 2 namespaces; capacity 3 only in the thorough tier and in k_lru",
     "thread-safe cache variant under real threads; the executor hop of get_source_async (runs inline); file systems whose mtime granularity hides an edit (the harness sets mtime := version)",
